@@ -775,6 +775,17 @@ func (c *otApplyContext) ligateInput(count int, matchPositions [maxContextLength
 
 	buffer.mergeClusters(buffer.idx, matchEnd)
 
+	// The ligature glyph takes the mask of its first component. Glyph flags are only
+	// spread over a cluster at the very end of shaping, and a merge clears them on every
+	// glyph whose cluster value changes: when the flags of the cluster are held by another
+	// component (a reordered repha, or any component but the last one in a buffer shaped
+	// in reverse), they would vanish with that component.
+	for i := 1; i < count; i++ {
+		if comp := &buffer.Info[matchPositions[i]]; comp.Cluster == buffer.cur(0).Cluster {
+			buffer.cur(0).Mask |= comp.Mask & glyphFlagDefined
+		}
+	}
+
 	/* - If a base and one or more marks ligate, consider that as a base, NOT
 	*   ligature, such that all following marks can still attach to it.
 	*   https://github.com/harfbuzz/harfbuzz/issues/1109
